@@ -52,10 +52,40 @@ def check_refill(run, rule):
     run.ob(rule, "read_to_buffer:nonempty-window-on-return", ok, f, line, why)
     # the refill assigns m_p/m_end from the object's own buffer and gcount()
     good = False
+
+    def counts_read_bytes(e, depth=0):
+        """gcount() of the object's stream, 0, or a local every store of which is one of these"""
+        u = ir.unwrap_all_casts(e)
+        if not isinstance(u, dict) or depth > 4:
+            return False
+        if u.get("k") == "MCall" and callee_name(u) == "gcount" and path(u.get("recv")) == ("this", "m_input"):
+            return True
+        if ir.const_value(u) == 0:
+            return True
+        if u.get("k") == "Ref" and u.get("d") == "local":
+            defs = []
+            for x in ir.walk(f["body"]):
+                if x.get("k") == "Decl":
+                    defs += [v_["init"] for v_ in x.get("vars", []) if v_.get("id") == u.get("id") and v_.get("n") == u.get("n") and v_.get("init") is not None]
+                elif x.get("k") == "Bin" and x.get("op") == "=" and path(x.get("lhs")) == path(u):
+                    defs.append(x.get("rhs"))
+                elif x.get("k") == "Bin" and (x.get("op") or "").endswith("=") and x.get("op") not in ("==", "!=", "<=", ">=", "=") and path(x.get("lhs")) == path(u):
+                    return False
+            return bool(defs) and all(counts_read_bytes(d_, depth + 1) for d_ in defs) and any("gcount()" in show(d_) or counts_nonconst(d_, depth) for d_ in defs)
+        return False
+
+    def counts_nonconst(e, depth):
+        u = ir.unwrap_all_casts(e)
+        return isinstance(u, dict) and u.get("k") == "Ref" and u.get("d") == "local" and ir.const_value(u) is None and counts_read_bytes(u, depth + 1)
     for n in ir.walk(f["body"]):
         if n.get("k") == "Bin" and n.get("op") == "=" and path(n["lhs"]) == ("this", "m_end"):
             txt = show(n["rhs"])
             good = "this.m_buffer" in txt and "gcount()" in txt
+            r_ = ir.unwrap_all_casts(n["rhs"])
+            if not good and isinstance(r_, dict) and r_.get("k") == "Bin" and r_.get("op") == "+":
+                for a_, b_ in ((r_["lhs"], r_["rhs"]), (r_["rhs"], r_["lhs"])):
+                    if path(ir.unwrap_all_casts(a_)) == ("this", "m_buffer") and counts_read_bytes(b_):
+                        good = True
     run.ob(rule, "read_to_buffer:m_end=m_buffer+gcount", good, f, f["line"],
            "window end is the buffer start plus the bytes actually read" if good else "m_end is not m_buffer + m_input.gcount()")
     run.floor(rule, 2, "refill obligations")
